@@ -112,6 +112,13 @@ pub fn gen_weight(rng: &mut Rng, class: WClass) -> i32 {
 
 pub fn gen_weights(rng: &mut Rng, len: usize, class: WClass) -> Vec<i32> {
     let mut w: Vec<i32> = (0..len).map(|_| gen_weight(rng, class)).collect();
+    // leading zeros (positions far to the left that an entry does not vote on)
+    if len > 1 && rng.chance(1, 8) {
+        let k = rng.urange(1, len - 1);
+        for x in w.iter_mut().take(k) {
+            *x = 0;
+        }
+    }
     // trailing zeros (serialisation of fixed-length vectors trims them)
     if len > 0 && rng.chance(1, 6) {
         let k = rng.urange(1, len);
